@@ -363,3 +363,48 @@ def prt5(ctx: Ctx):
                    sample="not inside a handler that continues")
     if not n:
         raise AnalysisError("PRT5: nobody calls split_netloc (anchor vanished)")
+
+
+def prt6(ctx: Ctx):
+    """PRT6: a port accepted by `isinstance(port, int)` is written into the authority as a *number*. The validation admits
+    instances of int subclasses; an f-string / str() of such an object is whatever the subclass formats as (an `(int, Enum)`
+    mix-in prints 'P.X' on Python 3.12), and the memoised authority printer is keyed by a value that compares equal to the plain
+    int. So the entry points that take a `port` argument must hand on `int(port)` (or have established `type(port) is int`)."""
+    model = ctx.model
+    rule = "PRT6"
+    ctx.rule(rule, floor=2, what="a validated port argument is normalised to a plain int before it is rendered or memoised")
+    P = ("param", "port")
+    for q in ("_url.URL.build", "_url.URL.with_port"):
+        if not model.has_func(q):
+            raise AnalysisError(f"anchor vanished: {q}")
+        fi = model.func(q)
+        r = analyze(model, fi)
+        ctx.functions.add(q)
+        raw_uses = []
+        n_uses = 0
+        for e in r.events:
+            for val in e.data.values():
+                if not (isinstance(val, tuple) and val and isinstance(val[0], str)):
+                    continue
+                for t in walk(val):
+                    used = None
+                    if t[0] == "call" and t[1][0] == "global" and t[1][2] == "make_netloc" and len(t[2]) >= 4:
+                        used = t[2][3]
+                    elif t[0] == "fstr":
+                        for p_ in t[1]:
+                            if p_[0] == "fmt" and any(x == P for x in walk(p_[1])) and "port" not in "".join(c[1] for c in t[1] if c[0] == "const"):
+                                used = p_[1]
+                    if used is None or not any(x == P for x in walk(used)):
+                        continue
+                    n_uses += 1
+                    exact = truth(("cmp", "Is", ("call", ("builtin", "type"), (P,), ()), ("builtin", "int")), e.state.facts) is True
+                    if used == P and not exact and truth(("cmp", "Is", P, NONE), e.state.facts) is not True:
+                        raw_uses.append(e.node)
+        ctx.instance(rule)
+        if not n_uses:
+            raise AnalysisError(f"PRT6: {q} does not hand its port to the authority printer (unknown idiom)")
+        ctx.ob(rule, q, "port rendered as supplied", not raw_uses,
+               f"{fi.name}() writes its `port` argument into the authority as supplied: an instance of an int subclass that formats "
+               "as something else (an (int, Enum) member prints 'P.X' on Python 3.12) yields a URL whose str() raises, and it shares the "
+               "authority printer's memo entry with the equal plain int", where(fi, raw_uses[0] if raw_uses else fi.node),
+               sample="int(port) / type(port) is int before rendering")
